@@ -24,6 +24,11 @@ CHECKS = {
             'Same program spaces as C01 (they contain both shapes named in the statement); duration of the circuit and of every nested block must '
             'equal max end - min start over the contained operations, 0 when empty, and the follower clause is evaluated for every relation to a block.',
             'bounded program length / alphabet / duration configurations'),
+    'C03': (MC, '4/C03', 'deviation-bounded exhaustive exploration of mutation/observation histories, differential oracle',
+            'Every mutation sequence up to length 3 (4 in the thorough tier) over 15 mutation kinds is executed with every placement of one '
+            'intermediate observation of every kind (and length <= 2 with two), and its full observation vector is compared with the same mutations replayed '
+            'without observations on a cleared world. Failures are attributed to the listed finding F2 only by a counterfactual experiment.',
+            'bounded history length and number of observations; hidden state compared through public observers only'),
 }
 
 
